@@ -36,13 +36,15 @@ def strat_sde(draw, tier):
     d = draw(st.sampled_from([1, 1, 2]))
     margins = [draw(chain_model_spec(exp=False, families=("hem", "merton", "vg", "cgmy"),
                                      cgmy_branches=["y<0", "y=0", "0<y<1"] if d > 1 else None)) for _ in range(d)]
-    coef = draw(st.sampled_from(["constant", "diag", "libor"]))
+    coef = draw(st.sampled_from(["constant", "diag", "libor", "libor-model"] if d == 1 else ["constant", "diag", "libor"]))
     m = d if coef == "diag" else draw(st.sampled_from([1, 2, 3]))
     case = {"d": d, "margins": margins, "coef": coef, "m": m,
             "x0": [draw(_f(0.2, 2.0)) for _ in range(m)], "const": draw(_f(-1.5, 1.5)),
             "sigma": [[draw(_f(-0.5, 0.5)) for _ in range(d)] for _ in range(m)],
             "T": draw(_f(0.2, 1.0)), "seed": draw(st.integers(0, 10 ** 6)), "levels": draw(st.integers(0, 2)),
-            "h_rel": draw(_f(0.5, 1.5))}
+            "h_rel": draw(_f(0.5, 1.5)), "tenor_start": draw(st.sampled_from(["beyond", "inside", "late"])),
+            # the same process object simulates this many paths before the one that is checked
+            "paths_before": draw(st.integers(0, 2))}
     if d > 1:
         case["copula"] = {"type": "clayton", "theta": draw(_f(0.5, 3.0)), "eta": draw(_f(0.1, 0.9))}
         case["levels"] = min(case["levels"], 1)
@@ -70,10 +72,23 @@ def _build(case):
         a = Constant(m=m, d=d, constant=case["const"])
     elif case["coef"] == "diag":
         a = DiagX(dimension=d)
+    elif case["coef"] == "libor-model":
+        # the Levy Libor model: same coefficient, and an SDE drift that depends on the state (the only such model)
+        from rpylib.model.levydrivensde.levylibormodel import LevyLiborModel
+
+        model = LevyLiborModel(libor_rates=np.array(case["x0"], dtype=float) * 0.05, tenors=list(_tenors(case)),
+                               sigma=np.array(case["sigma"], dtype=float), driver=driver)
+        return model, grid, method, driver
     else:
-        a = LiborSDEFunction(sigma=np.array(case["sigma"], dtype=float), tenors=np.linspace(2.0, 3.0, m + 1))
+        a = LiborSDEFunction(sigma=np.array(case["sigma"], dtype=float), tenors=_tenors(case))
     model = LevyDrivenSDEModel(driver=driver, x0=np.array(case["x0"], dtype=float), a=a)
     return model, grid, method, driver
+
+
+def _tenors(case):
+    """tenors of the Libor-type coefficient: beyond the horizon, or starting inside it (rates then fix along the path)"""
+    t0 = {"beyond": 2.0, "inside": 0.4 * case["T"], "late": 0.8 * case["T"]}[case.get("tenor_start", "beyond")]
+    return np.linspace(t0, t0 + 1.0, case["m"] + 1)
 
 
 def _euler(times, dW, dL, x0, a, drift_fn, mu):
@@ -101,7 +116,14 @@ def _ref_a(case):
     if case["coef"] == "diag":
         return lambda t, x: np.diag(np.ravel(x))
     sig = np.array(case["sigma"], dtype=float)
-    return lambda t, x: sig * np.ravel(x).reshape(m, 1)  # tenors start at 2.0 > T: sigma(t) = sigma
+    ten = _tenors(case)
+
+    def a_libor(t, x):
+        s_t = sig.copy()
+        s_t[ten[:-1] <= t] = 0.0  # a rate that has fixed (T_k <= t) has no volatility any more
+        return s_t * np.ravel(x).reshape(m, 1)
+
+    return a_libor
 
 
 def body_sde(case):
@@ -118,14 +140,15 @@ def body_sde(case):
     detail = f"case={case}"
     a_ref = _ref_a(case)
     zero_drift = lambda t, x: np.zeros((m, 1))
-    x0 = np.array(case["x0"], dtype=float)
+    drift_holder = {"fn": zero_drift}  # the state-dependent SDE drift of the Levy Libor model is set below
+    x0 = np.array(case["x0"], dtype=float) * (0.05 if case["coef"] == "libor-model" else 1.0)
     tag = f"C16/{case['coef']}/driver-d{d}"
 
     def check_component(name, times, djump, ddiff, mu, X_lib):
         times = np.asarray(times, dtype=float)
         dW = np.diff(np.atleast_2d(ddiff), axis=1)
         dL = np.diff(np.atleast_2d(djump), axis=1)
-        X = _euler(times, dW, dL, x0, a_ref, zero_drift, np.atleast_1d(np.asarray(mu, dtype=float)).ravel())
+        X = _euler(times, dW, dL, x0, a_ref, drift_holder["fn"], np.atleast_1d(np.asarray(mu, dtype=float)).ravel())
         scale = 1.0 + np.abs(X).max()
         if X_lib.shape != X.shape or not np.allclose(X_lib, X, rtol=1e-9, atol=1e-10 * scale):
             j = int(np.argmax(np.abs(X_lib - X).max(axis=0))) if X_lib.shape == X.shape else -1
@@ -147,9 +170,18 @@ def body_sde(case):
                                      f"X_T={X_lib[:, -1]} vs x0*prod(1+dY)={closed}; {detail}"))
 
     if case["levels"] == 0:
-        proc = MarkovChainSDE(model=model, method=method, grid=grid)
+        if case["coef"] == "libor-model":
+            from rpylib.process.markovchain.markovchainsde import MarkovChainLevyLiborModel
+
+            proc = MarkovChainLevyLiborModel(model=model, method=method, grid=grid)
+        else:
+            proc = MarkovChainSDE(model=model, method=method, grid=grid)
         proc.initialisation(product)
         proc.pre_computation(1, product)
+        if case["coef"] == "libor-model":
+            # the drift *formula* is the library's; what is checked is that the scheme evaluates it at (t_i, X_i) of the
+            # component it advances
+            drift_holder["fn"] = lambda t, x, _p=proc: np.asarray(_p.sde_drift(t, np.asarray(x, dtype=float).reshape(m, 1)), dtype=float)
         beta = driver.blumenthal_getoor_index()
         if not np.isclose(proc.epsilon, grid.h ** beta, rtol=1e-12):
             out.append(Violation(f"{tag}/epsilon-is-not-h-power-beta", f"{proc.epsilon} vs {grid.h ** beta}; {detail}"))
@@ -161,6 +193,8 @@ def body_sde(case):
             captured["p"] = copy.deepcopy(p)
             return p
 
+        for _ in range(case.get("paths_before", 0)):
+            proc.simulate_one_path()
         proc.markov_chain.simulate_one_path = spy
         path = proc.simulate_one_path()
         dp = captured["p"]
@@ -192,6 +226,8 @@ def body_sde(case):
     pms = [_PM(cs.fine_process.deterministic_path)]
     for _ in range(case["levels"]):
         cs.next_level(1, pms, product)
+    if case["coef"] == "libor-model":
+        drift_holder["fn"] = lambda t, x, _p=cs.fine_process: np.asarray(_p.sde_drift(t, np.asarray(x, dtype=float).reshape(m, 1)), dtype=float)
     captured = {}
     drv = cs.driver_coupling_process
     orig = drv.simulate_one_path_with_coupling
@@ -201,6 +237,8 @@ def body_sde(case):
         captured["p"] = copy.deepcopy(p)
         return p
 
+    for _ in range(case.get("paths_before", 0)):
+        cs.simulate_one_path_with_coupling()
     drv.simulate_one_path_with_coupling = spy
     path = cs.simulate_one_path_with_coupling()
     dp = captured["p"]
@@ -245,7 +283,8 @@ def body_sde(case):
 
 
 def classify_sde(case):
-    return [case["coef"], f"driver-d={case['d']}", f"m={case['m']}", f"levels={case['levels']}"] + \
+    return [case["coef"], f"driver-d={case['d']}", f"m={case['m']}", f"levels={case['levels']}",
+            f"paths-before={case.get('paths_before', 0)}"] + ([f"tenors-{case.get('tenor_start')}"] if case["coef"] == "libor" else []) + \
         sorted({branch_of(s) for s in case["margins"]}), False
 
 
@@ -325,7 +364,7 @@ SUBCHECKS = [
                   "DiagX, Libor-type sigma*x) x initial values x levels 0 (single process) / 1..2 (coupled pair): "
                   "captured driver path -> harness Euler recursion step by step, plus closed forms for constant and "
                   "diagonal coefficients; non-trivial = >= 3 driver steps (single: with >= 1 jump)",
-             strategy=strat_sde, budget={"quick": 1440, "thorough": 6000}, shards={"quick": 16, "thorough": 16}),
+             strategy=strat_sde, budget={"quick": 800, "thorough": 6000}, shards={"quick": 16, "thorough": 16}),
     SubCheck("discount-factors", body_df, classify_df,
              rule="LevyForwardModel / LevyLiborModel with 1..6 periods, rates >= 0 (incl. 0), increasing tenors: df(0)=1, "
                   "positive, non-increasing on a 41-point mesh united with every tenor and its float neighbours, "
